@@ -403,3 +403,12 @@ int main() {
   for (int p = 1; p <= 8; ++p) for (int q = 1; q <= 8; ++q) for (int n = 1; n <= 24; ++n) { if (one(n, p, q, 0)) return 1; if (one(n, p, q, 2 * p * q + 1)) return 1; }
   return 0; }
 ''' % (n, p, q, hn)
+
+
+@adapter(r'FftFilter::process\((cmplx|real)\)/(divzero|throws)')
+def fftfilter_default(o):
+    """a default-constructed FftFilter (no coefficients) must reject input with an exception, not divide by zero"""
+    return HDR + '''
+int main(){ FftFilter f; try { auto y = f.process(arr_cmplx(4)); std::printf("returned %d samples\\n", y.size()); return 1; }
+  catch(const std::exception&) { return 0; } }
+'''
